@@ -5,6 +5,7 @@ import (
 	"os"
 	"path/filepath"
 	"strings"
+	"sync"
 
 	"golang.org/x/tools/go/packages"
 
@@ -166,4 +167,62 @@ func init() {
 	for _, p := range []string{"C01", "C06", "C20"} {
 		props[p] = common.UniverseProperty(p, common.UniImpl{V2: true, Load: loadV1, LookupChecks: lookupChecksV1})
 	}
+	props["C11"] = common.LoadingProperty(common.UniImpl{V2: true, Load: loadV1, LoadHistory: loadHistoryV2})
+}
+
+// ---- C11: loading histories through the real v2 Parser (scratch module; LoadPackagesTo needs cwd) ----
+
+var chdirMu sync.Mutex
+
+func loadHistoryV2(prog *common.Program, initial []string, steps [][]string) (*common.USnap, bool, []string, error) {
+	chdirMu.Lock()
+	defer chdirMu.Unlock()
+	root, err := os.MkdirTemp("", "verif-mod-")
+	if err != nil {
+		return nil, false, nil, err
+	}
+	defer os.RemoveAll(root)
+	if err := writeModule(prog, root); err != nil {
+		return nil, false, nil, err
+	}
+	cwd, _ := os.Getwd()
+	defer os.Chdir(cwd)
+	if err := os.Chdir(root); err != nil {
+		return nil, false, nil, err
+	}
+	for _, kv := range []string{"GOFLAGS=-mod=mod", "GOPROXY=off", "GOSUMDB=off", "GO111MODULE=on", "GOWORK=off", "GOTOOLCHAIN=local"} {
+		i := strings.Index(kv, "=")
+		os.Setenv(kv[:i], kv[i+1:])
+	}
+	p := parser.New()
+	if err := p.LoadPackages(initial...); err != nil {
+		return nil, false, nil, fmt.Errorf("LoadPackages(%v): %v", initial, err)
+	}
+	u, err := p.NewUniverse()
+	if err != nil {
+		return nil, false, nil, err
+	}
+	stable := true
+	for _, step := range steps {
+		before := map[types.Name]*types.Type{}
+		kinds := map[*types.Type]types.Kind{}
+		for _, pk := range u {
+			for _, t := range pk.Types {
+				before[types.Name{Package: pk.Path, Name: t.Name.Name}] = t
+				kinds[t] = t.Kind
+			}
+		}
+		if _, err := p.LoadPackagesTo(&u, step...); err != nil {
+			return nil, false, nil, fmt.Errorf("LoadPackagesTo(%v): %v", step, err)
+		}
+		for n, t := range before {
+			if n.Package == "" {
+				continue
+			}
+			if u.Type(types.Name{Package: t.Name.Package, Name: t.Name.Name}) != t || (kinds[t] != types.Unknown && t.Kind != kinds[t]) {
+				stable = false
+			}
+		}
+	}
+	return snapshotUniverse(u), stable, p.UserRequestedPackages(), nil
 }
